@@ -208,9 +208,23 @@ def trace_stats(path, max_samples=3):
     return n, seen, samples
 
 
-def write_replay(pid, seed, finding, extra_msgs):
+def write_replay(pid, seed, finding, extra_msgs, driver=None):
     os.makedirs(REPLAYS, exist_ok=True)
     path = os.path.join(REPLAYS, f"{pid}-{seed}-{finding.job or finding.kind}.trace")
+    # cache traces: shrink to a minimal action script that still fails against the implementation
+    if driver == "cache" and finding.kind == "monitor" and finding.trace and finding.line:
+        try:
+            import shrink
+            r = shrink.shrink(TRACEGEN, DRIVER, finding.trace, finding.line, finding.message, budget_s=25)
+        except Exception as e:  # shrinking is best effort
+            r = None
+        if r and r.get("shrunk"):
+            with open(path, "w") as out:
+                out.write(f"# property: {pid}\n# failure: {finding.message}\n")
+                out.write("# minimized action script (answers after `|` are the implementation's on this run);\n")
+                out.write("# replay: tracegen replay-cache --script <this file>\n")
+                out.write(r["trace"])
+            return path
     with open(path, "w") as out:
         out.write(f"# property: {pid}\n")
         if finding.gen:
@@ -339,7 +353,10 @@ def main(argv):
         rc = 1
         mons = [f for f in violations if f.kind in ("monitor", "oracle")]
         primary = mons[0] if mons else violations[0]
-        path = write_replay(pid, seed, primary, [f.message for f in violations if f is not primary])
+        drv = next((j.get("driver") for j in spec["jobs"] if j["name"] == primary.job), None)
+        if primary.job and primary.job.startswith("corpus-"):
+            drv = "cache"
+        path = write_replay(pid, seed, primary, [f.message for f in violations if f is not primary], driver=drv)
         tail = "" if mons else " no-failing-input-found"
         for f in (mons[:5] if mons else violations[:5]):
             print("  " + f.message.splitlines()[0][:300])
@@ -401,6 +418,8 @@ def do_replay(pid, spec, path):
         if line.startswith("# replay: tracegen "):
             gen = line[len("# replay: tracegen "):].split()
             break
+    if gen and gen[0] == "replay-cache":
+        gen = ["replay-cache", "--script", path]
     if gen is None:
         print("replay file has no generator line; replaying the recorded trace through the model only")
         job = spec["jobs"][0]
@@ -409,6 +428,8 @@ def do_replay(pid, spec, path):
         return 0 if rc == 0 else 1
     comp = gen[0]
     job = next((j for j in spec["jobs"] if j["gen"]("quick", 0)[0] == comp), spec["jobs"][0])
+    if comp == "replay-cache":
+        job = {"driver": "cache"}
     d = os.path.join(BUILD, "traces", pid)
     os.makedirs(d, exist_ok=True)
     trace = os.path.join(d, "replay.trace")
